@@ -158,6 +158,8 @@ class CorrelationFunction(DFunction, UnitsManaged):
                 #
                 for prms in self.params:
                     
+                    ftype = prms["ftype"]
+                    
 #                    try:
 #                        ftype = params["ftype"]
 #                        
